@@ -4,7 +4,7 @@ use indexmap::IndexMap;
 use java_string::{JavaStr, JavaString};
 use duke::tree::class::{ClassAccess, ClassFile, ClassName, EnclosingMethod, InnerClass, InnerClassFlags, ObjClassName};
 use duke::tree::field::{FieldDescriptor, FieldName, FieldNameAndDesc};
-use duke::tree::method::{Method, MethodAccess, MethodDescriptor, MethodName, MethodNameAndDesc};
+use duke::tree::method::{Method, MethodAccess, MethodNameAndDesc};
 use duke::tree::version::Version;
 use dukebox::storage::{BasicFileAttributes, ClassRepr, IsClass, JarEntryEnum, ParsedJar, ParsedJarEntry};
 use dukenest::nest::{Nest, NestType, Nests};
@@ -644,7 +644,8 @@ fn gen(r: &mut Rng, tier: Tier, out: &mut Out) {
 		let cfg3 = SceneCfg { max_tops: r.range(1, 3), max_nests: r.range(0, 5), weird: r.chance(1, 4), all_apply: false, underscores: r.chance(1, 5) };
 		let sc3 = gen_scene(r, &cfg3, out);
 		let ns3 = nests_sexp(&sc3.nests);
-		let m3 = gen_scene_mappings(r, &sc3, r.chance(1, 4), out);
+		let absent_dst = r.chance(1, 4);
+		let m3 = gen_scene_mappings(r, &sc3, absent_dst, out);
 		out.op("map-nests", &[ns3.clone(), m3.clone()]);
 		out.op("apply-nests", &[m3.clone(), ns3.clone()]);
 		out.op("oracle-undo-apply", &[m3.clone(), ns3.clone()]);
